@@ -446,7 +446,17 @@ func (e *Env) trVal(x Expr) Val {
 			hi, _ = e.tr(x.Hi)
 		}
 		vc.S.useStr("ssub")
-		return Val{T: tString, S: "(ssub " + s + " " + lo + " " + hi + ")"}
+		r := "(ssub " + s + " " + lo + " " + hi + ")"
+		if !strings.Contains(r, "!q") && !strings.Contains(r, "p_") && !e.pure {
+			if vc.ssubSeen == nil {
+				vc.ssubSeen = map[string]bool{}
+			}
+			if !vc.ssubSeen[r] {
+				vc.ssubSeen[r] = true
+				vc.ssubFacts(r, s, lo, hi)
+			}
+		}
+		return Val{T: tString, S: r}
 	case *Call:
 		return e.trCall(x)
 	}
@@ -807,18 +817,17 @@ func (e *Env) trCall(x *Call) Val {
 		return Val{S: "(select " + h + " (s_arr " + v.S + "))", Ty: &Ty{L: "seq", Elem: &el}}
 	case "arrayat":
 		// arrayat(T, ref): contents of the array object ref holding elements of type T
-		id, ok := x.Args[0].(*Ident)
-		if !ok {
-			specFail("arrayat(Type, ref)")
-		}
-		t := vc.P.lookupType(id.Name, vc.curPkg)
-		if t == nil {
-			specFail("unknown type %s", id.Name)
-		}
+		t := vc.typeArg(x.Args[0])
 		r, _ := argS(1)
 		h := vc.heap(e.st, vc.arrHeapName(t))
 		el := goTy(t)
 		return Val{S: "(select " + h + " " + r + ")", Ty: &Ty{L: "seq", Elem: &el}}
+	case "cellat":
+		// cellat(T, ref): the value of type T stored at heap reference ref
+		t := vc.typeArg(x.Args[0])
+		r, _ := argS(1)
+		h := vc.heap(e.st, vc.cellHeapName(t))
+		return Val{T: t, S: "(select " + h + " " + r + ")"}
 	case "mapval":
 		v := e.trVal(x.Args[0])
 		m, ok := under(v.T).(*types.Map)
@@ -887,6 +896,24 @@ func (e *Env) trCall(x *Call) Val {
 			fs = append(fs, s)
 		}
 		return Val{T: t, S: vc.S.mkStruct(t, fs)}
+	}
+	if x.Fun == "InSet" && len(x.Args) == 2 {
+		// membership of a byte in a literal cut set: expanded to a disjunction (no quantifier)
+		c, _ := argS(0)
+		set, _ := argS(1)
+		if lit, ok := vc.S.litValue(set); ok {
+			if len(lit) == 0 {
+				return Val{T: tBool, S: "false"}
+			}
+			var alts []string
+			for i := 0; i < len(lit); i++ {
+				alts = append(alts, fmt.Sprintf("(= %s %d)", c, lit[i]))
+			}
+			if len(alts) == 1 {
+				return Val{T: tBool, S: alts[0]}
+			}
+			return Val{T: tBool, S: "(or " + strings.Join(alts, " ") + ")"}
+		}
 	}
 	// lemma-like or spec function
 	f, ok := vc.P.specFuns[x.Fun]
